@@ -1,8 +1,177 @@
-(** Proofs of the C09 laws about the tax-scale transformations (Scale.v, ScaleOps.v). *)
-From Coq Require Import ZArith QArith Qminmax Qabs List Bool Lia Lqa Setoid Morphisms.
-From Verif Require Import Base Scale ScaleOps.
+(** Proofs of the C09 laws about the tax-scale transformations (Scale.v, ScaleOps.v).
+
+    This file: [calc] is the mathematical definition ([marginal_tax] of ScaleProofs.v),
+    the laws of multiply_rates / multiply_thresholds / scale_tax_scales / copy, and the
+    "jump" form of the tax of a sorted scale,
+        tax s b = sum_k (r_k - r_(k-1)) * max(0, b - t_k),
+    on which the proofs about add_tax_scale (ScaleC09Combine.v) rest. *)
+From Coq Require Import ZArith QArith Qminmax Qabs List Bool Lia Lqa Setoid Morphisms Sorted.
+From Verif Require Import Base Scale ScaleOps ScaleProofs.
 Import ListNotations.
 Open Scope Q_scope.
 
+(* ------------------------------------------------------------------------- *)
+(** * calc                                                                     *)
+(* ------------------------------------------------------------------------- *)
+
+Lemma calc_marginal_tax : forall s b, calc s b == marginal_tax b s.
+Proof.
+  intros s b. unfold calc, calc_eps.
+  pose proof (calc_marginal_def_clean s [b]) as H.
+  destruct (calc_marginal 0 1 None s [b]) as [|x l]; inversion H; subst.
+  cbn [nth]. assumption.
+Qed.
+
+Lemma calc_vector : forall s bases,
+  Forall2 Qeq (calc_marginal 0 1 None s bases) (map (calc s) bases).
+Proof.
+  intros. eapply Forall2_Qeq_trans; [apply calc_marginal_def_clean|].
+  induction bases as [|b bs IH]; constructor; [|exact IH].
+  symmetry. apply calc_marginal_tax.
+Qed.
+
+Lemma calc_seq : forall s s' b, seq s s' -> calc s b == calc s' b.
+Proof. intros. rewrite !calc_marginal_tax. apply marginal_tax_seq. assumption. Qed.
+
+(* ------------------------------------------------------------------------- *)
+(** * copy, multiply_rates, multiply_thresholds                                *)
+(* ------------------------------------------------------------------------- *)
+
 Lemma copy_same_calc : forall s b, calc (returned (copy_call s)) b = calc s b.
 Proof. reflexivity. Qed.
+
+Lemma copy_leaves_self : forall s, self_after (copy_call s) = s /\ returned (copy_call s) = s.
+Proof. intro. split; reflexivity. Qed.
+
+Lemma upper_end_multiply_rates : forall f s, upper_end (multiply_rates f s) = upper_end s.
+Proof. intros f [|[t r] s]; reflexivity. Qed.
+
+Lemma marginal_tax_multiply_rates : forall f s b,
+  marginal_tax b (multiply_rates f s) == f * marginal_tax b s.
+Proof.
+  intros f s b. induction s as [|[t r] s IH]; [cbn; ring|].
+  change (multiply_rates f ((t, r) :: s)) with ((t, r * f) :: multiply_rates f s).
+  cbn [marginal_tax]. rewrite IH, upper_end_multiply_rates. ring.
+Qed.
+
+Lemma scale_rates_calc : forall f s b, calc (multiply_rates f s) b == f * calc s b.
+Proof. intros. rewrite !calc_marginal_tax. apply marginal_tax_multiply_rates. Qed.
+
+Lemma Qmin_scale : forall f x y, 0 <= f -> Qmin (f * x) (f * y) == f * Qmin x y.
+Proof. intros f x y Hf. qminmax; nra. Qed.
+
+Lemma Qmax0_scale : forall f x, 0 <= f -> Qmax 0 (f * x) == f * Qmax 0 x.
+Proof. intros f x Hf. qminmax; nra. Qed.
+
+Lemma overlap_scale : forall f t hi b, 0 <= f ->
+  overlap (f * t) (emul f hi) (f * b) == f * overlap t hi b.
+Proof.
+  intros f t hi b Hf. destruct hi as [h|]; cbn [overlap emul].
+  - rewrite Qmin_scale by assumption. rewrite <- Qmax0_scale by assumption.
+    apply Q.max_compat; [reflexivity|ring].
+  - rewrite <- Qmax0_scale by assumption. apply Q.max_compat; [reflexivity|ring].
+Qed.
+
+Lemma upper_end_multiply_thresholds : forall f s,
+  match upper_end (multiply_thresholds f None s), emul f (upper_end s) with
+  | Fin a, Fin b => a == b
+  | Inf, Inf => True
+  | _, _ => False
+  end.
+Proof. intros f [|[t r] s]; cbn; [exact I|ring]. Qed.
+
+Lemma marginal_tax_multiply_thresholds : forall f s b, 0 <= f ->
+  marginal_tax (f * b) (multiply_thresholds f None s) == f * marginal_tax b s.
+Proof.
+  intros f s b Hf. induction s as [|[t r] s IH]; [cbn; ring|].
+  change (multiply_thresholds f None ((t, r) :: s))
+    with ((t * f, r) :: multiply_thresholds f None s).
+  cbn [marginal_tax]. rewrite IH.
+  assert (E : overlap (t * f) (upper_end (multiply_thresholds f None s)) (f * b)
+              == f * overlap t (upper_end s) b).
+  { rewrite <- overlap_scale by assumption.
+    pose proof (upper_end_multiply_thresholds f s) as Hu.
+    destruct (upper_end (multiply_thresholds f None s)) as [a|], (emul f (upper_end s)) as [c|];
+      try contradiction.
+    - rewrite (overlap_hi_compat _ _ _ _ Hu). apply overlap_comp; [ring|reflexivity|reflexivity].
+    - apply overlap_comp; [ring|reflexivity|reflexivity]. }
+  rewrite E. ring.
+Qed.
+
+Lemma scale_thresholds_calc : forall f s b, 0 <= f ->
+  calc (multiply_thresholds f None s) (f * b) == f * calc s b.
+Proof. intros. rewrite !calc_marginal_tax. apply marginal_tax_multiply_thresholds. assumption. Qed.
+
+(** the calls: what is returned and what [self] becomes *)
+Lemma multiply_rates_call_spec : forall f inplace s,
+  exists c, multiply_rates_call f inplace false s = Ok c
+            /\ returned c = multiply_rates f s
+            /\ aliased c = inplace
+            /\ self_after c = (if inplace then multiply_rates f s else s).
+Proof. intros f [|] s; eexists; repeat split. Qed.
+
+Lemma multiply_thresholds_call_spec : forall f d inplace s,
+  exists c, multiply_thresholds_call f d inplace false s = Ok c
+            /\ returned c = multiply_thresholds f d s
+            /\ aliased c = inplace
+            /\ self_after c = (if inplace then multiply_thresholds f d s else s).
+Proof. intros f d [|] s; eexists; repeat split. Qed.
+
+Lemma scale_tax_scales_call_spec : forall f s,
+  exists c, scale_tax_scales_call f s = Ok c
+            /\ returned c = multiply_thresholds f None s /\ aliased c = false /\ self_after c = s.
+Proof. intros; eexists; repeat split. Qed.
+
+(* ------------------------------------------------------------------------- *)
+(** * Jump form of the tax of a sorted scale                                   *)
+(* ------------------------------------------------------------------------- *)
+
+Definition pos (b t : Q) : Q := Qmax 0 (b - t).
+
+Global Instance pos_comp : Proper (Qeq ==> Qeq ==> Qeq) pos.
+Proof. intros b b' Hb t t' Ht. unfold pos. rewrite Hb, Ht. reflexivity. Qed.
+
+Lemma pos_nonneg : forall b t, 0 <= pos b t.
+Proof. intros. unfold pos. apply Q.le_max_l. Qed.
+
+Lemma overlap_pos : forall t h b, t <= h -> overlap t (Fin h) b == pos b t - pos b h.
+Proof. intros t h b H. unfold overlap, pos. qminmax; lra. Qed.
+
+Lemma overlap_inf_pos : forall t b, overlap t Inf b == pos b t.
+Proof. reflexivity. Qed.
+
+Definition head_pos (s : scale) (b : Q) : Q :=
+  match s with [] => 0 | (t, _) :: _ => pos b t end.
+
+Fixpoint jumps (prev : Q) (s : scale) (b : Q) : Q :=
+  match s with
+  | [] => 0
+  | (t, r) :: rest => (r - prev) * pos b t + jumps r rest b
+  end.
+
+Lemma jumps_marginal_tax : forall s prev b, sorted s ->
+  jumps prev s b == marginal_tax b s - prev * head_pos s b.
+Proof.
+  induction s as [|[t r] s IH]; intros prev b Hs; [cbn; ring|].
+  cbn [jumps marginal_tax head_pos].
+  rewrite (IH r b (sorted_tail _ _ Hs)).
+  destruct s as [|[t' r'] s'].
+  - cbn [upper_end head_pos marginal_tax]. rewrite overlap_inf_pos. ring.
+  - cbn [upper_end head_pos]. rewrite overlap_pos.
+    + ring.
+    + apply Qlt_le_weak. eapply sorted_cons2. exact Hs.
+Qed.
+
+Lemma marginal_tax_jumps : forall s b, sorted s -> marginal_tax b s == jumps 0 s b.
+Proof. intros. rewrite jumps_marginal_tax by assumption. ring. Qed.
+
+Lemma jumps_prev : forall s p q b, jumps p s b == jumps q s b + (q - p) * head_pos s b.
+Proof. intros [|[t r] s] p q b; cbn [jumps head_pos]; ring. Qed.
+
+Lemma jumps_seq : forall s s' p b, seq s s' -> jumps p s b == jumps p s' b.
+Proof.
+  intros s s' p b H. revert p. induction H as [|[t r] [t' r'] s s' [Ht Hr] Hs IH]; intro p; [reflexivity|].
+  cbn [fst snd] in Ht, Hr. cbn [jumps]. rewrite (jumps_prev s r r' b), (IH r'), Ht.
+  setoid_replace (r' - r) with 0 by (rewrite Hr; ring).
+  setoid_replace (r - p) with (r' - p) by (rewrite Hr; ring). ring.
+Qed.
